@@ -38,14 +38,15 @@ Fixpoint obs_ok (o : Z) (prev : Z * list Z) (H : hist) (ps : list pop)
 
 (** the same for an observed history that starts from a struct literal (Spec/TailBitmapSpec.v:
     [check_literal]): the invariant without the head clause after every call; the head clause is
-    required ([st]) from the first Compact on and from the first observation in which it holds on. *)
+    required ([st]) after every Compact and every Set into the first stored word, and from the first
+    observation in which it holds on. *)
 Fixpoint obs_ok_lit (st : Prop) (o : Z) (prev : Z * list Z) (H : hist) (ps : list pop)
          (obs : list (Z * list Z * Z)) : Prop :=
   match ps, obs with
   | [], [] => True
   | p :: ps', (off, ws, r) :: obs' =>
       let H' := abs_step H p in
-      let st_now := st \/ p = PCompact in
+      let st_now := st \/ touches_head (fst prev) p = true in
       TInvW o (memP H') off ws /\
       (st_now -> head_okP ws) /\
       fst prev <= off /\
